@@ -221,6 +221,27 @@ func runC14(w *fw.Worker) {
 			describeTags = append(describeTags, fmt.Sprintf("%s: %s=%q primary dials=%q", lr, a.tagKey, a.verbatim, lr.Leaf().Tags["dials"]))
 		}
 		desc["aliases"] = describeTags
+		if r.Bool() {
+			// as in ez, another alias-capable source over the same struct builds its view of it first
+			other := "env"
+			if fam == "env" {
+				other = []string{"flag", "pflag"}[r.Intn(2)]
+			}
+			desc["type_seen_first_by"] = other
+			switch other {
+			case "env":
+				(&env.Source{Prefix: "C14_NO_SUCH_PREFIX"}).Value(context.Background(), dials.NewType(ptrType))
+			default:
+				pk := flagPkgs[0]
+				if other == "pflag" {
+					pk = flagPkgs[1]
+				}
+				if src, _, err := pk.build(false, zero.Interface(), nil); err == nil {
+					src.Value(context.Background(), dials.NewType(ptrType))
+				}
+			}
+			w.Count("cases_where_another_source_saw_the_type_first", 1)
+		}
 		switch {
 		case fam == "env":
 			prefix := fmt.Sprintf("A%dS%dC%d", w.Seed%1000000, w.Shard, i)
